@@ -62,16 +62,17 @@ def _find_chain(fn_node):
 
 
 def _stmt_sources(node, needle):
-    """unparsed sources of the innermost statements below `node` that contain `needle`"""
+    """below `node`: the tests of the `if` statements and the simple statements whose source contains `needle`"""
     out = []
     for sub in ast.walk(node):
-        if isinstance(sub, ast.stmt):
-            try:
-                src = ast.unparse(sub)
-            except Exception:  # noqa: BLE001
-                continue
-            if needle in src and not any(needle in ast.unparse(c) for c in ast.iter_child_nodes(sub) if isinstance(c, ast.stmt)):
-                out.append(src if not hasattr(sub, "body") else ast.unparse(getattr(sub, "test", sub)))
+        if isinstance(sub, ast.If):
+            t = ast.unparse(sub.test)
+            if needle in t:
+                out.append("if " + t)
+        elif isinstance(sub, ast.stmt) and not hasattr(sub, "body"):
+            src = ast.unparse(sub)
+            if needle in src:
+                out.append(src)
     return out
 
 
@@ -133,7 +134,7 @@ def generate(problems):
 
     union_node = by_label.get("Union")
     body += "def unionBranchSrc : List String := %s\n" % lean_str_list([ast.unparse(s) for s in union_node.body] if union_node else [])
-    body += "def tupleArityTest : List String := %s\n" % lean_str_list(stmts("TupleSet", "len(subtypehints)"))
+    body += "def tupleArityTest : List String := %s\n" % lean_str_list(stmts("TupleSet", "len(val) != len(subtypehints)") + stmts("TupleSet", "isinstance(val, (list, tuple, set))"))
     body += "def tupleElemSrc : List String := %s\n" % lean_str_list(stmts("TupleSet", "val[n] ="))
     leaf_node = by_label.get("leaf")
     body += "def leafBranchSrc : List String := %s\n" % lean_str_list([ast.unparse(s) for s in leaf_node.body] if leaf_node else [])
@@ -141,7 +142,7 @@ def generate(problems):
     body += "def literalBranchSrc : List String := %s\n" % lean_str_list([ast.unparse(s) for s in lit_node.body] if lit_node else [])
     enum_node = by_label.get("Enum")
     body += "def enumBranchSrc : List String := %s\n" % lean_str_list([ast.unparse(s) for s in enum_node.body] if enum_node else [])
-    body += "def seqElemSrc : List String := %s\n" % lean_str_list(stmts("Sequence", "adapt_kwargs_n['orig_val']") + stmts("Sequence", "not isinstance(val, list)"))
+    body += "def seqElemSrc : List String := %s\n" % lean_str_list(stmts("Sequence", "adapt_kwargs_n['orig_val']") + stmts("Sequence", "isinstance(val, list)") + stmts("Sequence", "isinstance(val, Iterable)"))
     body += "def mapElemSrc : List String := %s\n" % lean_str_list(stmts("Mapping", "kwargs['orig_val']") + stmts("Mapping", "cast = "))
 
     # ---- sort_subtypes_for_union ----------------------------------------------------------------------------
